@@ -157,3 +157,29 @@ func (t *Tree) VerifWaitList() [][2]string {
 	}
 	return res
 }
+
+// verifRefusingValidator is the no-op validator of the testable tree, except that ValidateNewChanges refuses a
+// batch containing a change the harness-chosen predicate marks (a transiently refused batch: the rollback path
+// of addChangesToTree).
+type verifRefusingValidator struct {
+	noOpTreeValidator
+	refuse func(ch *Change) bool
+}
+
+func (v *verifRefusingValidator) ValidateNewChanges(tree *Tree, aclList list.AclList, newChanges []*Change) error {
+	if v.refuse != nil {
+		for _, ch := range newChanges {
+			if v.refuse(ch) {
+				return ErrHasInvalidChanges
+			}
+		}
+	}
+	return nil
+}
+
+// VerifSetRefuse installs (refuse != nil) or removes the refusing validator on a tree built by VerifBuildTree.
+func VerifSetRefuse(ot ObjectTree, refuse func(ch *Change) bool) {
+	if t, ok := ot.(*objectTree); ok {
+		t.validator = &verifRefusingValidator{refuse: refuse}
+	}
+}
